@@ -47,6 +47,7 @@ Definition hard_not_allowed : N := 530.
 
 Record queue := {
   q_items : list qitem;
+  q_hist : list qitem;   (* ghost: everything ever accepted by this queue, oldest first *)
   q_cap : option N;      (* None: unbounded *)
   q_tx : bool;           (* a sender is alive *)
   q_rx : bool }.         (* the receiver is alive *)
@@ -56,7 +57,7 @@ Definition qs := alist queue.
 Inductive sres := SOk | SFull | SDisc.
 
 Definition new_queue (cap : option N) : queue :=
-  {| q_items := []; q_cap := cap; q_tx := true; q_rx := true |}.
+  {| q_items := []; q_hist := []; q_cap := cap; q_tx := true; q_rx := true |}.
 
 (* crossbeam try_send: disconnected is reported before full *)
 Definition try_send (q : N) (it : qitem) (m : qs) : sres * qs :=
@@ -70,14 +71,14 @@ Definition try_send (q : N) (it : qitem) (m : qs) : sres * qs :=
                     | None => false
                     end in
         if full then (SFull, m)
-        else (SOk, ainsert q {| q_items := q_items qu ++ [it]; q_cap := q_cap qu;
+        else (SOk, ainsert q {| q_items := q_items qu ++ [it]; q_hist := q_hist qu ++ [it]; q_cap := q_cap qu;
                                 q_tx := q_tx qu; q_rx := q_rx qu |} m)
   end.
 
 Definition drop_tx (q : N) (m : qs) : qs :=
   match alookup q m with
   | None => m
-  | Some qu => ainsert q {| q_items := q_items qu; q_cap := q_cap qu;
+  | Some qu => ainsert q {| q_items := q_items qu; q_hist := q_hist qu; q_cap := q_cap qu;
                             q_tx := false; q_rx := q_rx qu |} m
   end.
 
